@@ -4,3 +4,9 @@ import ColaVerif.Model.Matmat
 import ColaVerif.Model.Wf
 import ColaVerif.Model.Bound
 import ColaVerif.Lemmas.BlockDiag
+import ColaVerif.Model.Algebra
+import ColaVerif.Model.Index
+import ColaVerif.Lemmas.KronSum
+import ColaVerif.Lemmas.SmallKernels
+import ColaVerif.Lemmas.OpMatmat
+import ColaVerif.Properties.C01
